@@ -90,9 +90,17 @@ def nontrivial(c, o):
 
 def shrink_key(c): return (len(split_ops(c)), len(c))
 
-def shrink(v, runner):
-    """delta-debug the op list of a failing history: v = (case, observed, cls, msg)"""
-    return None
+def shrink_candidates(c):
+    """smaller histories: drop one operation (later ones first; appends last), or shrink a big payload"""
+    parts = c.split(" ; ")
+    head, ops = parts[0], parts[1:]
+    out = []
+    idx = list(range(len(ops) - 1, -1, -1))
+    idx.sort(key=lambda i: ops[i].startswith("A "))      # reads first, appends last
+    for i in idx:
+        if len(ops) > 1: out.append(" ; ".join([head] + ops[:i] + ops[i + 1:]))
+    return out
+SHRINK_BUDGET = 120
 
 def distribution(pairs):
     d = {}
